@@ -97,6 +97,7 @@ type harness struct {
 
 	last            hsms.ConnState
 	leftSelAt       []time.Duration // instants State() left Selected
+	finBehind       map[*refhsms.Conn]bool
 	loopSince       time.Duration   // >=0: a reconnect loop must be running since then; -1: none expected
 	usedListeners   int
 	refuse          int
@@ -147,13 +148,14 @@ func Build(config string) core.BuildFunc {
 	}
 
 	return func(w *core.World) *core.Scenario {
-		h := &harness{w: w, loopSince: -1}
+		h := &harness{w: w, loopSince: -1, finBehind: map[*refhsms.Conn]bool{}}
 		h.sc = genScenario(w.T, config == "faulty")
 		sc := h.sc
 		wto := 250 * time.Millisecond
 		h.r = rig.New(w, rig.Opts{TraceTraffic: w.T.Choose("trace", 4) == 0, Active: sc.Active, Equip: sc.Equip, T3: sc.T3, T5: 300 * time.Millisecond, T6: 300 * time.Millisecond, T7: 2 * time.Second, T8: time.Second,
 			BackoffInit: 30 * time.Millisecond, BackoffMult: 2, CloseTimeout: time.Second, WriteTimeout: &wto, AsyncErrHandler: true, ValidateSession: sc.Validate})
 		r := h.r
+		r.N.EOFWithData = w.T.Choose("trace", 2) == 1
 		r.N.KeepLog = true
 		r.P.AutoSelectRsp = 0
 		r.P.AutoLinktest = true
@@ -352,6 +354,13 @@ func (h *harness) armFault(p int) {
 		switch f {
 		case fFIN:
 			w.Fault("fin")
+			if h.r.Selected() && w.T.Choose("peer", 2) == 0 {
+				// one more data frame with the close right behind it: it was sent while Selected and is read
+				// before the end of the stream is, so it counts — even when the last bytes come with io.EOF
+				c.SendFrame(refhsms.DataHeader(0xFFFF, 6, 11, false, h.r.P.NextSys()), refhsms.ASCII("last"))
+				h.finBehind[c] = true
+				w.Probe("data_frame_with_the_close_right_behind_it")
+			}
 			c.L.FIN()
 		case fRST:
 			w.Fault("rst")
@@ -550,6 +559,11 @@ func (h *harness) quiescent(where string) {
 				afterEnd = true
 			} else if ca >= 0 && at == ca {
 				edge = true // delivered at the very instant the library closed the socket: either way
+			}
+			if fin := pc.L.ToLib().FinDeliveredAt(); edge && h.finBehind[pc] && fin >= 0 && at <= fin {
+				// the session ended BECAUSE the peer closed, and this frame lies in front of that close in the
+				// stream: the library read it while still Selected
+				edge = false
 			}
 			switch {
 			case afterEnd:
